@@ -924,9 +924,39 @@ static int L_FRAMED, L_UNFRAMED, N_DOC, L_CORE;
 static wexp_cfg WCF;
 static const int walpha_small[] = { WO_OBJ_BEGIN, WO_OBJ_END, WO_ARR_BEGIN, WO_TRUE, WO_INT_1, WO_INT_128, WO_INT_2P31, WO_DOUBLE, WO_STR_0, WO_STR_1, WO_STR_128, WO_STRZ_AB, WO_BYT_1, WO_RAW_0, WO_RAW_2, WO_P2W, WO_P2W_REFUSED };
 
+/* The public definition macros: a parser made by a *_STATIC macro is meant to outlive the function that defines it, so both the object
+ * and the state array it points to must have static storage; one made by the plain macros lives in the defining frame. A state array
+ * in the frame of a function that has returned would make every later call write into dead (soon: somebody else's) stack memory. */
+static __attribute__((noinline)) binson_parser *macro_static_default(void) { BINSON_PARSER_DEF_STATIC(sp); return &sp; }
+static __attribute__((noinline)) binson_parser *macro_static_depth(void) { BINSON_PARSER_DEF_DEPTH_STATIC(sq, 4); return &sq; }
+static bool near_stack(const void *a)
+{
+    uintptr_t here = (uintptr_t) __builtin_frame_address(0), x = (uintptr_t) a;
+    return (x > here ? x - here : here - x) < (8u << 20);
+}
+static const char *macro_probe_run(void)
+{
+    binson_parser *a = macro_static_default(), *b = macro_static_depth();
+    BINSON_PARSER_DEF(la);
+    BINSON_PARSER_DEF_DEPTH(lb, 3);
+    if (near_stack(a) || near_stack(a->state) || near_stack(b) || near_stack(b->state)) return "a parser defined with a *_STATIC macro, or its state array, lives on the stack of the function that defined it";
+    if (a->max_depth != BINSON_PARSER_DEFAULT_DEPTH || b->max_depth != 4 || la.max_depth != BINSON_PARSER_DEFAULT_DEPTH || lb.max_depth != 3) return "a definition macro sets a max_depth other than the size of the state array it creates";
+    return NULL;
+}
+static void macro_probe(void)
+{
+    const char *bad = macro_probe_run();
+    if (bad) {
+        vf_str t = { 0 };
+        vf_str_printf(&t, "kind: macro-probe\nmismatch: %s\n", bad);
+        vf_violation("api:definition-macro-storage", t.s);
+        vf_str_free(&t);
+    }
+}
 static void worker(int w, int W, uint64_t start)
 {
     g_w = w; g_W = W; g_start = start; g_index = 0;
+    if (w == 0 && start == 0 && P_C01) macro_probe();
     vf_fatal_describe = fatal_describe;
     if (!freopen("/dev/null", "w", stdout)) vf_die("freopen");
     tostr_buf = (char *) vf_xmalloc(4096);
@@ -1036,6 +1066,12 @@ static void replay_main(void)
     char *t = vf_replay_load(vf_g.replay);
     char *kind = vf_replay_get(t, "kind");
     if (kind && !strcmp(kind, "writer")) exit(wexp_replay(&WCF, t));
+    if (kind && !strcmp(kind, "macro-probe")) {
+        const char *bad = macro_probe_run();
+        if (bad) { printf("replay: %s\nVIOLATION property=%s replay=%s\n", bad, vf_g.prop, vf_g.replay); exit(VF_EXIT_VIOLATION); }
+        printf("replay: the definition macros create objects of the documented storage\n");
+        exit(VF_EXIT_OK);
+    }
     char *init = vf_replay_get(t, "init"), *md = vf_replay_get(t, "max_depth"), *fill = vf_replay_get(t, "fill"), *hex = vf_replay_get(t, "input_hex"),
          *ops = vf_replay_get(t, "ops");
     if (!init || !md || !fill || !hex || !ops) vf_die("replay file lacks init/max_depth/fill/input_hex/ops");
